@@ -25,6 +25,18 @@ def oracle(ctx, specs, k, rnd, dups):
             rej = first_rejected(v, T)
             return ctx.fail("C04/value-not-admitted", [specs, k],
                             f"value {s} not a member of inferred {show(T)} (k={k}); innermost rejected: {rej[0]} {rej[1]!r}")
+    # merging must not change the types it is given: the SAME per-value type objects are first merged together with a value of
+    # another shape (stub generation merges the traces of all functions that share a type object) and then once more on their own
+    try:
+        from monkeytype.typing import get_type as _gt, shrink_types as _st
+        objs = [_gt(v, k) for v in vs]
+        _st(objs + [_gt(7, k), _gt((1, "x"), k)], k)
+        again = _st(objs, k)
+    except Exception as e:
+        return ctx.fail(f"C04/inference-raises:{type(e).__name__}", [specs, k, "merged-twice"], repr(e))
+    if canon(again) != canon(T):
+        return ctx.fail("C04/order-or-multiplicity-dependent", [specs, k, "merged-twice"],
+                        f"{show(T)} for {specs}, but {show(again)} when the same type objects had been through another merge before (k={k})")
     importable = "twin" not in repr(specs)  # two classes that print alike cannot both be found again by module + qualname
     try:
         vstore = [vals.build(s) for s in specs]
